@@ -389,8 +389,9 @@ class Check:
         ev = {"property_id": self.prop, "tier": self.tier, "seed": self.seed, "level": level,
               "coverage": cov, "assumptions": self.assumptions, "wall_s": round(time.time() - self.t0, 1),
               "violations": len(violations), "notes": self.notes}
-        os.makedirs(os.path.join(VERIF, "evidence"), exist_ok=True)
-        with open(os.path.join(VERIF, "evidence", self.prop + ".json"), "w") as fh:
+        evdir = os.environ.get("VERIF_EVIDENCE_DIR") or os.path.join(VERIF, "evidence")   # (seeded-tree runs write elsewhere)
+        os.makedirs(evdir, exist_ok=True)
+        with open(os.path.join(evdir, self.prop + ".json"), "w") as fh:
             json.dump(ev, fh, indent=1, sort_keys=True)
         if not os.environ.get("VERIF_KEEP"):
             shutil.rmtree(self.work, ignore_errors=True)
